@@ -35,6 +35,7 @@ import numpy as np
 from qstatic.alg import Poly, SQ, P, is_unknown
 from qstatic.dom_sym import SymArr, sym_quat, sym_real, mk, arrays_same, first_diff, wrap
 from qstatic.dom_tag import TagSpace, Tagged, uids_in
+from qstatic.scenario import known_zero_keys
 from qstatic.interp import ModelError, RepoRaise, Unsupported
 from .common import new_interp, run_guarded, short
 
@@ -195,7 +196,9 @@ def ref_ip(m, seq):
 # Golub & Van Loan alg. 3.4.1 over a skew field: l_ij = a_ij p^-1, a_ic <- a_ic - l_ij a_jc)
 # ----------------------------------------------------------------------------------------------
 
-def ref_lu(A, seq):
+def ref_lu(A, seq, zero_keys=frozenset()):
+    """zero_keys: keys of component expressions the analysed path has established to be exactly zero (a decided `not np.any(...)`
+    ...): a multiplier all of whose components are known zero IS zero on that path (its row needs no update)"""
     m, n = A.shape
     N = min(m, n)
     W = [[A[i, c] for c in range(n)] for i in range(m)]
@@ -210,6 +213,8 @@ def ref_lu(A, seq):
         pinv = W[j][j].inverse()
         for i in range(j + 1, m):
             W[i][j] = W[i][j] * pinv
+            if zero_keys and all(c_.is_zero() or c_.key() in zero_keys for c_ in W[i][j].c):
+                W[i][j] = SQ(0)
         for i in range(j + 1, m):
             for c in range(j + 1, n):
                 W[i][c] = W[i][c] - W[i][j] * W[j][c]
@@ -509,18 +514,35 @@ def run(ctx):
                        construct="exact run fails", loc=loc, detail=inst)
                 continue
             L, U = out[0], out[1]
+            # values the path established to be exactly zero (only in alternative scenarios that take a data-dependent shortcut)
+            zk = frozenset(known_zero_keys(it4.decision_log)) if ctx.scenario else frozenset()
+            if zk:
+                Lr, Ur, ipr = ref_lu(A, seq, zk)
+
+            def same_mod(X, Y):
+                if not isinstance(X, SymArr) or tuple(X.shape) != tuple(Y.shape):
+                    return False
+                if arrays_same(X, Y):
+                    return True
+                if not zk:
+                    return False
+                for idx in itertools.product(*[range(s_) for s_ in X.shape]):
+                    dq = X[idx] - Y[idx]
+                    if not all(c_.is_zero() or c_.key() in zk or (-c_).key() in zk for c_ in dq.c):
+                        return False
+                return True
             if return_p:
                 Lref = Lr
             else:
                 Lref = mk(Lr.shape, "quat")
                 for i in range(m):
                     Lref[ipr[i], :] = Lr[i, :]
-            okL = isinstance(L, SymArr) and arrays_same(L, Lref)
+            okL = isinstance(L, SymArr) and same_mod(L, Lref)
             ctx.ob(R_ORDER, f"multipliers are a * pivot^-1 (right division) [{inst}]", okL,
                    "L differs from the reference multipliers a_ij * pivot^-1 (so L[i,j] * U[j,j] != A[i,j])", where=where,
                    construct="multipliers differ from a * pivot^-1", loc=loc,
                    detail=f"{inst}: {short(first_diff(L, Lref), 400)}")
-            okU = isinstance(U, SymArr) and arrays_same(U, Ur)
+            okU = isinstance(U, SymArr) and same_mod(U, Ur)
             ctx.ob(R_ORDER, f"Schur update is a - l * u (column times row) [{inst}]", okU,
                    "U differs from the reference elimination a_ic - l_ij * a_jc", where=where,
                    construct="Schur update differs from a - l*u", loc=loc,
